@@ -33,6 +33,14 @@ type proc struct {
 	out   *bufio.Reader
 	lines chan string
 	dead  bool
+
+	// incremental session state
+	inc      bool
+	stack    []string       // keys of asserted PC conjuncts, one push level each
+	defs     map[string]int // defined symbol (by term key or var name) -> level
+	names    map[string]string
+	nameN    int
+	declared map[string]int
 }
 
 func (p *proc) start() error {
@@ -51,6 +59,11 @@ func (p *proc) start() error {
 	}
 	p.lines = make(chan string, 1024)
 	p.dead = false
+	p.inc = false
+	p.stack = nil
+	p.defs = map[string]int{}
+	p.names = map[string]string{}
+	p.declared = map[string]int{}
 	rd := bufio.NewReaderSize(so, 1<<20)
 	ch := p.lines
 	go func() {
@@ -103,6 +116,7 @@ type Solver struct {
 	procs    []*proc
 	Timeout  time.Duration
 	Both     bool // run every query on both solvers and compare
+	NoInc    bool // disable the incremental session
 	mu       sync.Mutex
 	Stats    SolverStats
 	cache    map[string]cacheEnt
@@ -115,9 +129,9 @@ type cacheEnt struct {
 }
 
 type SolverStats struct {
-	Queries, Unsat, Sat, Unknown, CacheHits, Errors int
-	Time                                            time.Duration
-	BySolver                                        map[string]int
+	Queries, Unsat, Sat, Unknown, CacheHits, Errors, IncFallbacks int
+	Time                                                          time.Duration
+	BySolver                                                      map[string]int
 }
 
 // NewSolver: order is e.g. ["z3","cvc5"] (first = primary).
@@ -438,4 +452,288 @@ func ModelJSON(m Model) map[string]string {
 		}
 	}
 	return out
+}
+
+// ---------------------------------------------------------------------------
+// Incremental interface: the path condition is kept on the solver's assertion
+// stack (one push level per conjunct, matched by structural key), so that the
+// many queries along one path and along neighbouring paths share their prefix.
+
+type incRenderer struct {
+	p     *proc
+	level int
+	sb    *strings.Builder
+	vars  map[string]Sort
+}
+
+func (r *incRenderer) ref(t *Term) string {
+	switch t.Op {
+	case "const":
+		return constText(t)
+	case "var":
+		r.vars[t.Name] = t.S
+		if _, ok := r.p.declared[t.Name]; !ok {
+			r.p.declared[t.Name] = r.level
+			fmt.Fprintf(r.sb, "(declare-const %s %s)\n", t.Name, t.S.SMT())
+		}
+		return t.Name
+	}
+	k := t.Key()
+	if _, ok := r.p.defs[k]; ok {
+		// still need the variables for get-value
+		r.collectVars(t)
+		return r.p.names[k]
+	}
+	var body string
+	if t.Op == "raw" {
+		for _, v := range t.Vars {
+			r.ref(v)
+		}
+		body = t.Name
+	} else {
+		args := make([]string, len(t.Args))
+		for i, a := range t.Args {
+			args[i] = r.ref(a)
+		}
+		body = opText(t, args, r.p.name == "cvc5")
+	}
+	r.p.nameN++
+	name := fmt.Sprintf("t!%d", r.p.nameN)
+	fmt.Fprintf(r.sb, "(define-fun %s () %s %s)\n", name, t.S.SMT(), body)
+	r.p.defs[k] = r.level
+	r.p.names[k] = name
+	return name
+}
+
+func (r *incRenderer) collectVars(t *Term) {
+	seen := map[*Term]bool{}
+	var walk func(x *Term)
+	walk = func(x *Term) {
+		if seen[x] {
+			return
+		}
+		seen[x] = true
+		if x.Op == "var" {
+			r.vars[x.Name] = x.S
+		}
+		for _, a := range x.Args {
+			walk(a)
+		}
+		for _, a := range x.Vars {
+			walk(a)
+		}
+	}
+	walk(t)
+}
+
+func (p *proc) purge(level int) {
+	for k, l := range p.defs {
+		if l > level {
+			delete(p.defs, k)
+			delete(p.names, k)
+		}
+	}
+	for k, l := range p.declared {
+		if l > level {
+			delete(p.declared, k)
+		}
+	}
+}
+
+// checkInc runs PC ∧ extra on the incremental session of the primary solver.
+func (s *Solver) checkInc(p *proc, pc []*Term, extra []*Term, wantModel bool) (Result, Model, string) {
+	if p.cmd == nil || p.dead {
+		if err := p.start(); err != nil {
+			return Unknown, nil, "start: " + err.Error()
+		}
+	}
+	var sb strings.Builder
+	ms := int(s.Timeout / time.Millisecond)
+	if !p.inc {
+		if p.name == "cvc5" {
+			sb.WriteString("(reset)\n(set-option :produce-models true)\n(set-logic ALL)\n")
+			fmt.Fprintf(&sb, "(set-option :tlimit-per %d)\n", ms)
+		} else {
+			sb.WriteString("(reset)\n")
+			fmt.Fprintf(&sb, "(set-option :timeout %d)\n", ms)
+		}
+		p.inc = true
+		p.stack = nil
+		p.defs = map[string]int{}
+		p.names = map[string]string{}
+		p.declared = map[string]int{}
+	}
+	// common prefix
+	keys := make([]string, len(pc))
+	for i, t := range pc {
+		keys[i] = t.Key()
+	}
+	L := 0
+	for L < len(p.stack) && L < len(keys) && p.stack[L] == keys[L] {
+		L++
+	}
+	if k := len(p.stack) - L; k > 0 {
+		fmt.Fprintf(&sb, "(pop %d)\n", k)
+		p.stack = p.stack[:L]
+		p.purge(L)
+	}
+	vars := map[string]Sort{}
+	for i := L; i < len(pc); i++ {
+		sb.WriteString("(push 1)\n")
+		r := &incRenderer{p: p, level: i + 1, sb: &sb, vars: vars}
+		n := r.ref(pc[i])
+		fmt.Fprintf(&sb, "(assert %s)\n", n)
+		p.stack = append(p.stack, keys[i])
+	}
+	// variables of the already asserted prefix are needed for models too
+	if wantModel {
+		r := &incRenderer{p: p, vars: vars}
+		for i := 0; i < L; i++ {
+			r.collectVars(pc[i])
+		}
+	}
+	top := len(p.stack) + 1
+	sb.WriteString("(push 1)\n")
+	r := &incRenderer{p: p, level: top, sb: &sb, vars: vars}
+	for _, e := range extra {
+		n := r.ref(e)
+		fmt.Fprintf(&sb, "(assert %s)\n", n)
+	}
+	sb.WriteString("(check-sat)\n(echo \"!done\")\n")
+	fail := func(note string) (Result, Model, string) {
+		p.kill()
+		return Unknown, nil, note
+	}
+	if _, err := io.WriteString(p.in, sb.String()); err != nil {
+		return fail("write: " + err.Error())
+	}
+	lines, ok := p.readUntil("!done", s.Timeout*2+5*time.Second)
+	if !ok {
+		return fail("timeout/killed")
+	}
+	res := Unknown
+	note := ""
+	for _, l := range lines {
+		l = strings.TrimSpace(l)
+		switch {
+		case l == "sat":
+			res = Sat
+		case l == "unsat":
+			res = Unsat
+		case strings.HasPrefix(l, "(error"):
+			note = l
+		}
+	}
+	if note != "" {
+		s.Stats.Errors++
+		p.kill() // session state is unreliable after an error
+		return Unknown, nil, note
+	}
+	var model Model
+	if res == Sat && wantModel {
+		var names []string
+		for n := range vars {
+			names = append(names, n)
+		}
+		if len(names) == 0 {
+			model = Model{}
+		} else {
+			io.WriteString(p.in, "(get-value ("+strings.Join(names, " ")+"))\n(echo \"!done\")\n")
+			lines, ok = p.readUntil("!done", 20*time.Second)
+			if !ok {
+				return fail("model timeout")
+			}
+			m, err := parseModel(strings.Join(lines, " "), vars)
+			if err != nil {
+				note = "model parse: " + err.Error()
+			} else {
+				model = m
+			}
+		}
+	}
+	io.WriteString(p.in, "(pop 1)\n")
+	p.purge(top - 1)
+	return res, model, note
+}
+
+// CheckPC decides PC ∧ extra, using the incremental session first and the
+// stateless portfolio as fall-back.
+func (s *Solver) CheckPC(pc []*Term, extra []*Term, wantModel bool) (Result, Model, string) {
+	all := append(append([]*Term{}, pc...), extra...)
+	var as []*Term
+	for _, a := range all {
+		if a.IsFalse() {
+			return Unsat, nil, ""
+		}
+		if !a.IsTrue() {
+			as = append(as, a)
+		}
+	}
+	if len(as) == 0 {
+		return Sat, Model{}, ""
+	}
+	if s.NoInc || len(s.procs) == 0 {
+		return s.Check(all, wantModel)
+	}
+	var kb strings.Builder
+	for _, a := range as {
+		kb.WriteString(a.Key())
+	}
+	key := "k" + kb.String()
+	if e, ok := s.cache[key]; ok && (!wantModel || e.r != Sat || e.m != nil) {
+		s.Stats.CacheHits++
+		return e.r, e.m, ""
+	}
+	var pcs []*Term
+	for _, a := range pc {
+		if !a.IsTrue() {
+			pcs = append(pcs, a)
+		}
+	}
+	var ex []*Term
+	for _, a := range extra {
+		if !a.IsTrue() {
+			ex = append(ex, a)
+		}
+	}
+	t0 := time.Now()
+	r, m, note := s.checkInc(s.procs[0], pcs, ex, wantModel)
+	s.Stats.BySolver[s.procs[0].name+"-inc"]++
+	if r != Unknown && !(s.Both && len(s.procs) > 1) && (r != Sat || !wantModel || m != nil) {
+		s.Stats.Queries++
+		s.Stats.Time += time.Since(t0)
+		if r == Sat {
+			s.Stats.Sat++
+		} else {
+			s.Stats.Unsat++
+		}
+		s.cache[key] = cacheEnt{r, m}
+		return r, m, note
+	}
+	s.Stats.Time += time.Since(t0)
+	if r != Unknown && s.Both && len(s.procs) > 1 {
+		// cross-check on the second solver (stateless)
+		t1 := time.Now()
+		r2, m2, _ := s.runOn(s.procs[1], as, wantModel && m == nil)
+		s.Stats.BySolver[s.procs[1].name]++
+		s.Stats.Queries++
+		s.Stats.Time += time.Since(t1)
+		if r2 != Unknown && r2 != r {
+			s.Disagree = append(s.Disagree, fmt.Sprintf("%s-inc says %v, %s says %v", s.procs[0].name, r, s.procs[1].name, r2))
+			s.Stats.Unknown++
+			return Unknown, nil, "solver disagreement"
+		}
+		if m == nil {
+			m = m2
+		}
+		if r == Sat {
+			s.Stats.Sat++
+		} else {
+			s.Stats.Unsat++
+		}
+		s.cache[key] = cacheEnt{r, m}
+		return r, m, note
+	}
+	s.Stats.IncFallbacks++
+	return s.Check(all, wantModel)
 }
